@@ -153,6 +153,14 @@ def items(cfg):
             continue
         out.append(('ON ERROR GOTO hzz\nON ERROR GOTO 0\n' + src +
                     'END\nhzz: PRINT "handler"\nRESUME NEXT\n', want))
+    # ... and with ON ERROR GOTO 0 as the first statement of the active
+    # handler: the pending error becomes fatal with the same category
+    for src, want in CAUSES:
+        if 'ON ERROR' in src.upper() or 'SUB ' in src.upper() or \
+                'FUNCTION ' in src.upper():
+            continue
+        out.append(('ON ERROR GOTO hzz\n' + src +
+                    'END\nhzz: ON ERROR GOTO 0\nPRINT "after"\nEND\n', want))
     return out
 
 
